@@ -60,10 +60,20 @@ def units(rng, tier):
             # the second list is a refinement / perturbation of the first: close calls for the dominance test
             l2 = sorted([max(1, x - rng.choice([0, 0, 1])) for x in l1] + ([rng.randint(1, 3)] if rng.random() < 0.6 else []), reverse=True)
         us.append({"kind": "bc_util", "params": {"fn": "isdom", "l1": l1, "l2": l2, "items": l1 + l2, "vals": l1 + l2}, "cmp": "eq", "family": "blocks/is_dominant", "group": 0})
-    for _ in range(500 if tier == "quick" else 5000):
-        C = rng.choice([10, 12, 20, 30])
+    for _ in range(4000 if tier == "quick" else 40000):
+        C = rng.choice([10, 12, 20, 30, 60, 100])
         items = desc(rng.randint(2, 8), 1, max(1, (2 * C) // 3))
-        x = rng.randint(items[0], C)
+        if rng.random() < 0.5:
+            items = sorted(set(items), reverse=True)          # distinct values: a unique smallest item
+            if len(items) < 2:
+                continue
+        x = rng.randint(items[0], C) if rng.random() < 0.5 else rng.randint(max(items[0], C // 2), max(items[0], C - items[-1]))
+        if rng.random() < 0.4:
+            # much room beside x and many small items: completions of three and more items
+            items = desc(rng.randint(4, 8), 1, max(2, C // 3))
+            if rng.random() < 0.6:
+                items = sorted(set(items), reverse=True)
+            x = rng.randint(max(items[0], C // 3), max(items[0], (2 * C) // 3))
         us.append({"kind": "bc_util", "params": {"fn": "fbc", "x": x, "items": items, "C": C, "vals": items}, "cmp": "eq", "family": "blocks/find_bin_completions", "group": 0})
         ls = [desc(rng.randint(1, 3), 1, 9) for _ in range(rng.randint(1, 5))]
         ls.sort(key=lambda l: -sum(l))
